@@ -124,7 +124,7 @@ func init() {
 		return ret(bytesOf(v))
 	}
 	stubs[p+"verifCollLess"] = func(e *Exec, th *Thread, c *CallCtx, a []Val) StubRes {
-		return ret(mkUF("sqlStrLess", SBool, toBlob(a[0].(*BytesV).S), toBlob(a[1].(*BytesV).S)))
+		return ret(e.strLess(a[0].(*BytesV).S, a[1].(*BytesV).S))
 	}
 	stubs[p+"verifAnyJSON"] = func(e *Exec, th *Thread, c *CallCtx, a []Val) StubRes {
 		// canonical JSON text of a parsed value (ViewRow.Key / Value)
